@@ -3,6 +3,7 @@ package engine
 import (
 	"fmt"
 	"go/constant"
+	"sort"
 	"go/types"
 	"strings"
 
@@ -287,14 +288,13 @@ func (e *SpecEnv) lookupTypeName(name string) *types.TypeName {
 
 // lookupObj resolves Name or pkg.Name in the scope of the contract's package.
 func (e *SpecEnv) lookupObj(name string) types.Object {
-	if e.pkg == nil {
-		return nil
-	}
 	if i := strings.Index(name, "."); i >= 0 {
 		pn, n := name[:i], name[i+1:]
-		for _, imp := range e.pkg.Imports() {
-			if imp.Name() == pn {
-				return imp.Scope().Lookup(n)
+		if e.pkg != nil {
+			for _, imp := range e.pkg.Imports() {
+				if imp.Name() == pn {
+					return imp.Scope().Lookup(n)
+				}
 			}
 		}
 		// allow naming any loaded package by its package name
@@ -305,6 +305,22 @@ func (e *SpecEnv) lookupObj(name string) types.Object {
 				}
 			}
 		}
+		// assumed contracts have no package of their own: any loaded package of that name (sorted for determinism)
+		var paths []string
+		for path, p := range e.vc.W.PkgByPath {
+			if p.Types != nil && p.Types.Name() == pn {
+				paths = append(paths, path)
+			}
+		}
+		sort.Strings(paths)
+		for _, path := range paths {
+			if o := e.vc.W.PkgByPath[path].Types.Scope().Lookup(n); o != nil {
+				return o
+			}
+		}
+		return nil
+	}
+	if e.pkg == nil {
 		return nil
 	}
 	return e.pkg.Scope().Lookup(name)
@@ -922,6 +938,34 @@ func (e *SpecEnv) call(x *spec.Call) Val {
 			}
 			vc.Assumed["A10: reflect enumerates exactly the exported methods go/types reports for *"+sl.Val] = true
 			return Val{T: B, Term: or(alts...)}
+		}
+	case "tlen":
+		if need(0) {
+			_, lc := vc.traceCells(e.state())
+			return Val{T: I, Term: e.state().cells[lc]}
+		}
+	case "evIs":
+		// evIs(k, "key"): event k is a call of the named effectful operation
+		if need(2) {
+			sl, ok := x.Args[1].(*spec.StrLit)
+			if !ok {
+				return e.fail(x, "evIs: second argument must be a string literal naming the operation")
+			}
+			tc, _ := vc.traceCells(e.state())
+			return Val{T: B, Term: fmt.Sprintf("(= (ev_tag (select %s %s)) %s)", e.state().cells[tc], argT(0), vc.effectTag(sl.Val))}
+		}
+	case "evRecv", "evErr", "evS1", "evS2":
+		if need(1) {
+			tc, _ := vc.traceCells(e.state())
+			sel := map[string]string{"evRecv": "ev_recv", "evErr": "ev_err", "evS1": "ev_s1", "evS2": "ev_s2"}[fname]
+			term := fmt.Sprintf("(%s (select %s %s))", sel, e.state().cells[tc], argT(0))
+			switch fname {
+			case "evRecv":
+				return Val{Sort: "Iface", Term: term}
+			case "evErr":
+				return Val{T: types.Universe.Lookup("error").Type(), Term: term}
+			}
+			return Val{T: S, Term: term}
 		}
 	case "apply":
 		// apply(f, args...): the result of calling the function value f (see dynCall)
